@@ -421,8 +421,12 @@ LOOKUPS = ('LightSet.get_light', 'LightSet.get_group_lights',
       decides='a script keeps running when a named light, group or location '
               'is unknown')
 def r12d(R):
+    lookup_checks(R, (MACHINE, VMDISC))
+
+
+def lookup_checks(R, modules):
     A = R.A
-    for f in list(A.repo.all_functions(MACHINE)) + list(A.repo.all_functions(VMDISC)):
+    for f in [f for m in modules for f in A.repo.all_functions(m)]:
         for node in walk_own(f.node):
             if not (isinstance(node, ast.Assign) and isinstance(node.value, ast.Call)
                     and isinstance(node.targets[0], ast.Name)):
